@@ -1,0 +1,60 @@
+//go:build verif
+
+package kubeeventsmanager
+
+import (
+	"github.com/deckhouse/deckhouse/pkg/log"
+	"k8s.io/apimachinery/pkg/apis/meta/v1/unstructured"
+
+	kemtypes "github.com/flant/shell-operator/pkg/kube_events_manager/types"
+	"github.com/flant/shell-operator/pkg/metric"
+)
+
+// VerifC08Informer wraps a resourceInformer that is not connected to a cluster: the
+// C08 correspondence harness feeds watch events to its handlers synchronously and reads
+// the KubeEvents it fires and the objects it caches.
+// Add-only, compiled with -tags verif only.
+type VerifC08Informer struct {
+	ei     *resourceInformer
+	events []kemtypes.KubeEvent
+}
+
+// NewVerifC08Informer builds the informer around a MonitorConfig (event types, jqFilter)
+// exactly as monitor.CreateInformers does (newResourceInformer), without creating the
+// shared informer, and enables the event callback so that fired events are delivered
+// to the collector instead of the Synchronization buffer.
+func NewVerifC08Informer(mc *MonitorConfig, mstor metric.Storage) *VerifC08Informer {
+	v := &VerifC08Informer{}
+	v.ei = newResourceInformer("", "", &resourceInformerConfig{
+		mstor:   mstor,
+		eventCb: func(ev kemtypes.KubeEvent) { v.events = append(v.events, ev) },
+		monitor: mc,
+		logger:  log.NewNop(),
+	})
+	v.ei.enableKubeEventCb()
+	return v
+}
+
+// Handle delivers one watch event through the client-go handler methods.
+func (v *VerifC08Informer) Handle(eventType kemtypes.WatchEventType, obj *unstructured.Unstructured) {
+	switch eventType {
+	case kemtypes.WatchEventAdded:
+		v.ei.OnAdd(obj, false)
+	case kemtypes.WatchEventModified:
+		v.ei.OnUpdate(nil, obj)
+	case kemtypes.WatchEventDeleted:
+		v.ei.OnDelete(obj)
+	}
+}
+
+// TakeEvents returns the KubeEvents fired since the previous call.
+func (v *VerifC08Informer) TakeEvents() []kemtypes.KubeEvent {
+	evs := v.events
+	v.events = nil
+	return evs
+}
+
+// CachedObjects is the informer's part of the snapshot.
+func (v *VerifC08Informer) CachedObjects() []kemtypes.ObjectAndFilterResult {
+	return v.ei.getCachedObjects()
+}
